@@ -141,6 +141,13 @@ def step (st : St) (op : String) (got : String) : StepResult St :=
     | none => { st := { mode := .none }, expected := some "model-has-no-Packet-schema" }
   | ["new", "stream"] => { st := { mode := .stream }, expected := some "ok" }
   | ["new", "udp"] => { st := { mode := .udp }, expected := none }
+  | ["new", "udpl"] => { st := { mode := .udp }, expected := none }
+  | ["first", hex] =>
+    -- the first datagram of a new remote endpoint at the real UDP listener: whatever its bytes (none at
+    -- all included), the listener survives and the endpoint gets its on-demand face
+    { st := st, expected := if got == "skip" then none else some "faces=+1",
+      spec := if isCrash got then [⟨"no-panic", "udp-listener", s!"the UDP listener crashed on the first datagram ({hex}) of a new endpoint: {got}"⟩] else [],
+      cov := ["udpl-first"] ++ (if hex == "-" then ["udpl-first-empty"] else []), nontrivial := true }
   | ["persist", _] =>
     { st := st, expected := if got == "skip" then none else some "ok",
       spec := if isCrash got then [⟨"no-panic", "udp-transport", s!"face update crashed: {got}"⟩] else [] }
